@@ -10,4 +10,4 @@ def check(run, replay=None):
                 "contract-level type and by every part alone (from_json), error class and listed names compared with the model; "
                 "L1: wrapper variants, consulted name lists; non-trivial = distinct (program, kind, document)")
     return msgprops.check(run, "C03", "Props/C03", THEOREMS, {"c03": True, "c02": True, "tables": True}, replay,
-                          translated=("Props/C03T", ["c03_translated_deserialization_attempts", "c03_translated_glue_variants_and_types"]))
+                          translated=("Props/C03T", ["c03_translated_deserialization_attempts", "c03_translated_glue_variants_and_types", "c03_translated_contract_level_message"]))
